@@ -293,6 +293,74 @@ func (x *fx) loopInvariants(li *loopInfo, eff *Effects) []invItem {
 			return fmt.Sprintf("(%s %s %s)", op, t, bound), nil
 		}})
 	}
+	// upper bound of a range-style index: i = phi(-1, i+1); t = i+1; if t < L (L fixed before the loop) gives i < L or i < 0
+	for _, in := range li.header.Instrs {
+		ph, ok := in.(*ssa.Phi)
+		if !ok {
+			break
+		}
+		if !isInteger(ph.Type()) {
+			continue
+		}
+		var inc *ssa.BinOp
+		for _, in2 := range li.header.Instrs {
+			if bo, ok := in2.(*ssa.BinOp); ok && bo.Op == token.ADD && bo.X == ssa.Value(ph) {
+				if k, ok := bo.Y.(*ssa.Const); ok && k.Value != nil && k.Int64() == 1 {
+					inc = bo
+				}
+			}
+		}
+		if inc == nil {
+			continue
+		}
+		// the phi must be exactly phi(-1 from outside, inc from the back edges)
+		shape := true
+		for i, ed := range ph.Edges {
+			if x.isBackEdge(li.header.Preds[i], li.header) {
+				if ed != ssa.Value(inc) {
+					shape = false
+				}
+			} else if c, ok := ed.(*ssa.Const); !ok || c.Value == nil || c.Int64() != -1 {
+				shape = false
+			}
+		}
+		iff, ok := li.header.Instrs[len(li.header.Instrs)-1].(*ssa.If)
+		if !shape || !ok {
+			continue
+		}
+		cmp, ok := iff.Cond.(*ssa.BinOp)
+		if !ok || cmp.Op != token.LSS || cmp.X != ssa.Value(inc) {
+			continue
+		}
+		lim := cmp.Y
+		if li2, ok := lim.(ssa.Instruction); ok {
+			inLoop := false
+			for _, lb := range li.blocks {
+				if li2.Block() == lb {
+					inLoop = true
+				}
+			}
+			if inLoop {
+				continue
+			}
+		}
+		phv := ph
+		out = append(out, invItem{name: fmt.Sprintf("%d:auto-upper:%s", li.ordinal, phv.Name()), props: nil, text: fmt.Sprintf("range index %s stays below the length fixed before the loop", phv.Comment), eval: func(env *Env) (Term, error) {
+			t, ok := env.phiVal(phv)
+			if !ok {
+				return "", fmt.Errorf("phi value unavailable")
+			}
+			var lt Term
+			if c, ok := lim.(*ssa.Const); ok && c.Value != nil {
+				lt = smtInt(c.Int64())
+			} else if v, ok := x.vals[lim]; ok {
+				lt = v
+			} else {
+				return "", fmt.Errorf("limit unavailable")
+			}
+			return fmt.Sprintf("(or (< %s %s) (< %s 0))", t, lt, t), nil
+		}})
+	}
 	// loop frame: objects that existed at loop entry and are not listed keep
 	// their contents (relative to the loop entry state)
 	if fc != nil {
